@@ -527,7 +527,7 @@ def xyz2llh(x, y, z, ellipsoid=grs80):
         itercheck = lat - atan((z + nu * ellipsoid.ecc1sq * sin(lat))/p)
         lat = atan((z + nu * ellipsoid.ecc1sq * sin(lat))/p)
     nu = ellipsoid.semimaj/(sqrt(1 - ellipsoid.ecc1sq * (sin(lat))**2))
-    ellht = p/(cos(lat)) - nu
+    ellht = p*cos(lat) + z*sin(lat) - ellipsoid.semimaj**2/nu
     # Convert Latitude and Longitude to Degrees
     lat = degrees(lat)
     long = degrees(long)
